@@ -110,6 +110,8 @@ type heapOpts struct {
 	fixParent  bool // counterfactual run
 	light      bool // large histories: the O(n) parts of the per-step check run every 37th step (and on every Pop/Remove result)
 	sparse     bool // nothing is read between operations (not even Front) except every 53rd step; only operation results are observed
+	bound      bool // observations go through method values (q.Len, q.Front, ...) bound when the queue was created
+	moved      int  // 1: the Queue struct is copied by value right after construction and only the copy is used; 2: the same after a few operations
 }
 
 type heapStats struct {
@@ -147,6 +149,29 @@ func heapRun(c *fw.Ctx, ops []hop, opt heapOpts) (div *heapDiv, st heapStats) {
 	if opt.update {
 		q.Update(update)
 	}
+	if opt.moved == 1 {
+		cp := *q // the owner holds the queue by value; the original is never used again
+		q = &cp
+	}
+	// observations either call the methods directly or go through method values
+	// bound once, right after the queue came into being
+	var accLen func() int
+	var accIsEmpty func() bool
+	var accFront func() Elem
+	var accPeek func(int) (Elem, bool)
+	var accEach func(func(Elem) bool)
+	bind := func() {
+		if opt.bound {
+			accLen, accIsEmpty, accFront, accPeek, accEach = q.Len, q.IsEmpty, q.Front, q.Peek, q.Each
+			return
+		}
+		accLen = func() int { return q.Len() }
+		accIsEmpty = func() bool { return q.IsEmpty() }
+		accFront = func() Elem { return q.Front() }
+		accPeek = func(i int) (Elem, bool) { return q.Peek(i) }
+		accEach = func(f func(Elem) bool) { q.Each(f) }
+	}
+	bind()
 	step := 0
 	fail := func(format string, args ...any) *heapDiv {
 		return &heapDiv{Step: step, Detail: fmt.Sprintf(format, args...)}
@@ -169,14 +194,14 @@ func heapRun(c *fw.Ctx, ops []hop, opt heapOpts) (div *heapDiv, st heapStats) {
 		return Elem{}, true
 	}
 	check := func() *heapDiv {
-		if q.Len() != len(ref) || q.IsEmpty() != (len(ref) == 0) {
-			return fail("Len=%d IsEmpty=%v with %d elements held", q.Len(), q.IsEmpty(), len(ref))
+		if accLen() != len(ref) || accIsEmpty() != (len(ref) == 0) {
+			return fail("Len=%d IsEmpty=%v with %d elements held", accLen(), accIsEmpty(), len(ref))
 		}
 		if opt.sparse && step%53 != 0 && step < len(ops) {
 			return nil
 		}
 		if opt.light && step%37 != 0 {
-			f := q.Front()
+			f := accFront()
 			if len(ref) > 0 {
 				if x, ok := ref[f.Tag]; !ok || x != f {
 					return fail("Front=%v is not held", f)
@@ -187,17 +212,17 @@ func heapRun(c *fw.Ctx, ops []hop, opt heapOpts) (div *heapDiv, st heapStats) {
 		seen := map[int]bool{}
 		var bad *heapDiv
 		nth := 0
-		q.Each(func(e Elem) bool {
+		accEach(func(e Elem) bool {
 			// read-only calls from inside the loop body: Each lists in offset order
 			if len(ref) <= 64 {
-				if pe, ok := q.Peek(nth); !ok || pe != e || q.Len() != len(ref) {
-					bad = fail("inside Each, element %d is %v but Peek(%d)=(%v,%v), Len=%d", nth, e, nth, pe, ok, q.Len())
+				if pe, ok := accPeek(nth); !ok || pe != e || accLen() != len(ref) {
+					bad = fail("inside Each, element %d is %v but Peek(%d)=(%v,%v), Len=%d", nth, e, nth, pe, ok, accLen())
 					return false
 				}
 				if nth == len(ref)/2 {
-					q.Front()
+					accFront()
 					m := 0
-					q.Each(func(Elem) bool { m++; return true })
+					accEach(func(Elem) bool { m++; return true })
 					if m != len(ref) {
 						bad = fail("an Each started inside Each yields %d of %d elements", m, len(ref))
 						return false
@@ -222,7 +247,7 @@ func heapRun(c *fw.Ctx, ops []hop, opt heapOpts) (div *heapDiv, st heapStats) {
 		if len(seen) != len(ref) {
 			return fail("Each yields %d elements, %d are held", len(seen), len(ref))
 		}
-		f := q.Front()
+		f := accFront()
 		if len(ref) == 0 {
 			if f != (Elem{}) {
 				return fail("Front of an empty queue is %v", f)
@@ -231,7 +256,7 @@ func heapRun(c *fw.Ctx, ops []hop, opt heapOpts) (div *heapDiv, st heapStats) {
 			if x, ok := ref[f.Tag]; !ok || x != f {
 				return fail("Front=%v is not held", f)
 			}
-			if p0, ok := q.Peek(0); !ok || p0 != f {
+			if p0, ok := accPeek(0); !ok || p0 != f {
 				return fail("Peek(0)=%v,%v differs from Front=%v", p0, ok, f)
 			}
 			if opt.checkOrder {
@@ -240,7 +265,7 @@ func heapRun(c *fw.Ctx, ops []hop, opt heapOpts) (div *heapDiv, st heapStats) {
 				}
 			}
 		}
-		if _, ok := q.Peek(len(ref)); ok {
+		if _, ok := accPeek(len(ref)); ok {
 			return fail("Peek(Len) reports a value")
 		}
 		if opt.checkPos {
@@ -252,7 +277,7 @@ func heapRun(c *fw.Ctx, ops []hop, opt heapOpts) (div *heapDiv, st heapStats) {
 				if !ok {
 					return fail("no position was ever reported for held element %v", e)
 				}
-				got, gok := q.Peek(p)
+				got, gok := accPeek(p)
 				st.posChecks++
 				if !gok || got != e {
 					return fail("last position reported for %v is %d, but Peek(%d)=(%v,%v)", e, p, p, got, gok)
@@ -265,6 +290,11 @@ func heapRun(c *fw.Ctx, ops []hop, opt heapOpts) (div *heapDiv, st heapStats) {
 	for step = 0; step < len(ops); step++ {
 		o := ops[step]
 		c.Step()
+		if opt.moved == 2 && step == 7 {
+			cp := *q // moved by value after some use; only the copy is used from here on
+			q = &cp
+			bind()
+		}
 		switch o.Op {
 		case 'A':
 			tag++
@@ -274,7 +304,7 @@ func heapRun(c *fw.Ctx, ops []hop, opt heapOpts) (div *heapDiv, st heapStats) {
 			order = append(order, tag)
 			c.Call("heapq.Add(%v) len=%d", e, len(ref)-1)
 			p := q.Add(e)
-			if got, ok := q.Peek(p); !ok || got != e {
+			if got, ok := accPeek(p); !ok || got != e {
 				return fail("Add(%v) returned position %d but Peek(%d)=(%v,%v)", e, p, p, got, ok), st
 			}
 			if opt.checkPos {
@@ -302,7 +332,7 @@ func heapRun(c *fw.Ctx, ops []hop, opt heapOpts) (div *heapDiv, st heapStats) {
 				return fail("Pop on an empty queue returned %v", e), st
 			}
 		case 'R':
-			want, wok := q.Peek(o.I)
+			want, wok := accPeek(o.I)
 			if wok && o.I > 0 && o.I < len(ref)-1 {
 				st.interior++
 			}
@@ -372,7 +402,7 @@ func heapRun(c *fw.Ctx, ops []hop, opt heapOpts) (div *heapDiv, st heapStats) {
 			c.Call("heapq.Reorder(dir=%d) len=%d", dir, len(ref))
 			q.Reorder(cmp)
 		case 'X':
-			for _, f := range []func(){func() { q.Peek(-1) }, func() { q.Remove(-1) }} {
+			for _, f := range []func(){func() { accPeek(-1) }, func() { q.Remove(-1) }} {
 				if p, _ := fw.Panics(f); !p {
 					return fail("Peek(-1)/Remove(-1) did not panic as documented"), st
 				}
@@ -398,6 +428,11 @@ func heapRun(c *fw.Ctx, ops []hop, opt heapOpts) (div *heapDiv, st heapStats) {
 			if opt.update {
 				q.Update(update)
 			}
+			if opt.moved != 0 {
+				cp := *q
+				q = &cp
+			}
+			bind()
 		}
 		if len(ref) > st.maxLen {
 			st.maxLen = len(ref)
@@ -436,7 +471,7 @@ func heapRun(c *fw.Ctx, ops []hop, opt heapOpts) (div *heapDiv, st heapStats) {
 			}
 		}
 	}
-	if _, ok := q.Pop(); ok || !q.IsEmpty() {
+	if _, ok := q.Pop(); ok || !accIsEmpty() {
 		return fail("drain: queue not empty after popping every held element"), st
 	}
 	return nil, st
